@@ -1155,14 +1155,24 @@ fn run_presize_forms(v: &[u64]) {
             let nested: Vec<Vec<Vec<u8>>> = NESTED.iter().map(|x| x.iter().map(|y| y.to_vec()).collect()).collect();
             form_case::<SliceRegion<OwnedRegion<u8>>>(v, |r, k| { let _ = r.push(nested[k].clone()); }, |r, b| r.reserve_items(b.iter().map(|k| &nested[*k])))
         }
-        _ => form_case::<StringRegion>(v, |r, k| { let _ = r.push(strings[k].clone()); }, |r, b| r.reserve_items(b.iter().map(|k| &strings[*k]))),
+        22 => form_case::<StringRegion>(v, |r, k| { let _ = r.push(strings[k].clone()); }, |r, b| r.reserve_items(b.iter().map(|k| &strings[*k]))),
+        // owned vectors that carry spare capacity of their own (built by with_capacity / repeated push)
+        23 => {
+            let roomy = |x: &[u8]| { let mut o = Vec::with_capacity(x.len() + 37); o.extend_from_slice(x); o };
+            form_case::<OwnedRegion<u8>>(v, |r, k| { let _ = r.push(roomy(&vecs[k])); }, |r, b| r.reserve_items(b.iter().map(|k| &vecs[*k])))
+        }
+        _ => {
+            let nested: Vec<Vec<Vec<u8>>> = NESTED.iter().map(|x| x.iter().map(|y| y.to_vec()).collect()).collect();
+            let roomy = |x: &Vec<Vec<u8>>| { let mut o = Vec::with_capacity(x.len() + 19); for y in x { let mut z = Vec::with_capacity(y.len() + 11); z.extend_from_slice(y); o.push(z); } o };
+            form_case::<SliceRegion<OwnedRegion<u8>>>(v, |r, k| { let _ = r.push(roomy(&nested[k])); }, |r, b| r.reserve_items(b.iter().map(|k| &nested[*k])))
+        }
     }
 }
 fn pre_presize_forms(v: &[u64]) -> bool {
-    v[0] < 23 && v[1] < 4 && v[2] < 4 && v[3] < 4 && v[4] < 4 && v[5] < 5
+    v[0] < 25 && v[1] < 4 && v[2] < 4 && v[3] < 4 && v[4] < 4 && v[5] < 5
 }
 fn doms_presize_forms() -> Vec<Vec<u64>> {
-    vec![range(23), range(4), range(4), range(4), range(4), range(5)]
+    vec![range(25), range(4), range(4), range(4), range(4), range(5)]
 }
 
 // C17 clause 2 over further input forms and non-coded compositions (the iterator / array / reference-to-reference forms
@@ -1279,9 +1289,135 @@ pub fn harnesses_alloc() -> Vec<H> {
     vec![H { name: "heap_big_clear", props: &["C18"], nargs: 3, pre: pre_big_clear, doms: doms_big_clear, run: run_big_clear, panic_ok: false,
         bound: "17 compositions; 300 / 1100 / 2100 / 4200 pushes alternating two pool values, then clear: same number of (used, capacity) pairs, no capacity smaller than before", kani: false },
     H { name: "presize_forms", props: &["C17"], nargs: 6, pre: pre_presize_forms, doms: doms_presize_forms, run: run_presize_forms, panic_ok: false,
-        bound: "23 (region, ReserveItems form) pairs (four of them announced by reference and pushed in the owned Vec / array / String form): OwnedRegion (&[T;N], &[T], &Vec<T>, PushIter), StringRegion (&String, &str, &&str), SliceRegion<OwnedRegion> (&[T], &Vec<T>, &[T;N], read items), OptionRegion / ResultRegion / tuple (owned and by reference), Vec<T>, SliceRegion<MirrorRegion>; batch of 0..3 items from a pool of 4; target empty / one item / filled until 0..2 spare bytes; reserve_items(batch) then pushing the batch in the same form: every capacity constant", kani: false },
+        bound: "25 (region, ReserveItems form) pairs (six of them announced by reference and pushed in the owned Vec / array / String form, two with owned vectors that carry spare capacity): OwnedRegion (&[T;N], &[T], &Vec<T>, PushIter), StringRegion (&String, &str, &&str), SliceRegion<OwnedRegion> (&[T], &Vec<T>, &[T;N], read items), OptionRegion / ResultRegion / tuple (owned and by reference), Vec<T>, SliceRegion<MirrorRegion>; batch of 0..3 items from a pool of 4; target empty / one item / filled until 0..2 spare bytes; reserve_items(batch) then pushing the batch in the same form: every capacity constant", kani: false },
     H { name: "alloc_forms", props: &["C17"], nargs: 2, pre: pre_alloc_forms, doms: doms_alloc_forms, run: run_alloc_forms, panic_ok: false,
         bound: "23 (composition, input form) pairs beyond the slice form (incl. read items of another slice / columns region and of a FlatStack replayed): OwnedRegion via [T;N], &[T;N], &&[T;N], PushIter, &&[T]; SliceRegion via arrays; StringRegion via &&str; ColumnsRegion (mirror and string columns) via slice / array / PushIter rows; ConsecutiveIndexPairs, CollapseSequence, FlatStack (Vec and IndexOptimized offsets), SliceRegion over consecutive pairs; n = 2^6 .. 2^14 pushes without pre-sizing: at most storages x (log2(elements)+2) allocator calls", kani: false },
     H { name: "alloc_discipline", props: &["C17"], nargs: 6, pre: pre_alloc, doms: doms_alloc, run: run_alloc, panic_ok: false,
         bound: "8 vector-backed structural regions, n = 2^6 .. 2^14 items from a 3-value repeating pattern over static inputs, counting global allocator: without pre-sizing at most storages x (log2(elements)+2) allocator calls; after reserve_items (empty or populated target) / reserve_regions / merge_regions of up to 64 announced items, zero allocator calls while pushing them", kani: false }]
+}
+
+// ---------------------------------------------------------------------------------------------------- C16 / C11: serialisation round trip
+// A region / FlatStack is serialised (serde_json, a self-describing text format) at an arbitrary point of its history and
+// restored; the restored copy reads identically at every issued index and answers the same continuation exactly like the
+// original: same indices, same reads, same used bytes (deduplication and index-compression decisions included).
+#[cfg(all(feature = "serde-harness", not(kani)))]
+fn round_trip<T: serde::Serialize + serde::de::DeserializeOwned>(x: &T) -> T {
+    let text = serde_json::to_string(x).expect("serialise");
+    serde_json::from_str(&text).expect("deserialise")
+}
+#[cfg(all(feature = "serde-harness", not(kani)))]
+fn serde_twin<S>(v: &[u64])
+where
+    S: Subject + serde::Serialize + serde::de::DeserializeOwned,
+    S::Index: Copy + PartialEq,
+{
+    crate::section("VF:serde.region");
+    let h1 = [v[1] % S::POOL, v[2] % S::POOL, v[3] % S::POOL];
+    let h2 = [v[5] % S::POOL, v[3] % S::POOL, v[6] % S::POOL, v[5] % S::POOL];
+    let mut r = S::default();
+    let mut issued = Vec::new();
+    for k in h1.iter().take((v[4] % 4) as usize) {
+        issued.push(r.put(*k));
+    }
+    let mut c: S = round_trip(&r);
+    for i in &issued {
+        vassert!(c.dump(*i) == r.dump(*i), "VF:serde.read_differs_after_round_trip");
+    }
+    for k in h2 {
+        let (a, b) = (r.put(k), c.put(k));
+        if S::NAME.contains("CollapseSequence") {
+            // (C11: not collapsed / wrongly collapsed across the deserialisation boundary)
+            vassert!(a == b, "VF:serde.collapse.index_differs_after_round_trip");
+        }
+        vassert!(a == b, "VF:serde.index_differs_after_round_trip");
+        issued.push(a);
+        for i in &issued {
+            vassert!(c.dump(*i) == r.dump(*i), "VF:serde.read_differs_after_round_trip");
+        }
+        let (ur, uc): (usize, usize) = (heap(&r).iter().map(|p| p.0).sum(), heap(&c).iter().map(|p| p.0).sum());
+        vassert!(ur == uc, "VF:serde.used_bytes_differ_after_round_trip");
+    }
+    // a restored copy can be cleared and refilled like any other region
+    c.clear();
+    let mut fresh = S::default();
+    for k in h2.iter().take(2) {
+        vassert!(c.put(*k) == fresh.put(*k), "VF:serde.index_differs_after_round_trip");
+    }
+}
+#[cfg(all(feature = "serde-harness", not(kani)))]
+fn serde_flatstack(v: &[u64]) {
+    use flatcontainer::impls::index::IndexList;
+    crate::section("VF:serde.flatstack");
+    let n = (v[4] % 4) as usize;
+    // offsets / indices that exercise the stride, its saturation, the u32 spill and the u64 spill
+    const WIDE: [usize; 6] = [0, 5, 5, 1 << 33, 7, 10];
+    match v[0] % 3 {
+        0 => {
+            let mut fs = <FlatStack<ConsecutiveIndexPairs<StringRegion>, IndexOptimized>>::default();
+            for i in 0..n + 2 {
+                fs.copy(STRS4[(v[1] as usize + i) % 4]);
+            }
+            let mut c = round_trip(&fs);
+            for i in 0..5 {
+                let s = STRS4[(v[2] as usize + i) % 4];
+                fs.copy(s);
+                c.copy(s);
+                vassert!(fs.len() == c.len() && (0..fs.len()).all(|j| fs.get(j) == c.get(j)), "VF:serde.read_differs_after_round_trip");
+                let own = |f: &FlatStack<ConsecutiveIndexPairs<StringRegion>, IndexOptimized>| -> usize { collect_heap(|cb| f.heap_size(cb)).iter().map(|p| p.0).sum() };
+                vassert!(own(&fs) == own(&c), "VF:serde.used_bytes_differ_after_round_trip");
+            }
+        }
+        1 => {
+            let mut fs = <FlatStack<MirrorRegion<usize>, IndexOptimized>>::default();
+            for i in 0..n + 1 {
+                fs.copy(WIDE[(v[1] as usize + i) % 6]);
+            }
+            let mut c = round_trip(&fs);
+            for i in 0..5 {
+                let x = WIDE[(v[2] as usize + i) % 6];
+                fs.copy(x);
+                c.copy(x);
+                vassert!(fs.len() == c.len() && fs.iter().eq(c.iter()), "VF:serde.read_differs_after_round_trip");
+                let own = |f: &FlatStack<MirrorRegion<usize>, IndexOptimized>| -> usize { collect_heap(|cb| f.heap_size(cb)).iter().map(|p| p.0).sum() };
+                vassert!(own(&fs) == own(&c), "VF:serde.used_bytes_differ_after_round_trip");
+            }
+        }
+        _ => {
+            let mut fs = <FlatStack<MirrorRegion<usize>, IndexList<Vec<u32>, Vec<u64>>>>::default();
+            for i in 0..n + 1 {
+                fs.copy(WIDE[(v[1] as usize + i) % 6]);
+            }
+            let mut c = round_trip(&fs);
+            for i in 0..5 {
+                let x = WIDE[(v[2] as usize + i) % 6];
+                fs.copy(x);
+                c.copy(x);
+                vassert!(fs.len() == c.len() && fs.iter().eq(c.iter()), "VF:serde.read_differs_after_round_trip");
+            }
+        }
+    }
+}
+#[cfg(all(feature = "serde-harness", not(kani)))]
+fn run_serde(v: &[u64]) {
+    if v[0] >= 17 {
+        serde_flatstack(v)
+    } else {
+        dispatch!(serde_twin, v)
+    }
+}
+#[cfg(not(all(feature = "serde-harness", not(kani))))]
+fn run_serde(_v: &[u64]) {}
+fn pre_serde(v: &[u64]) -> bool {
+    v[0] < 20 && v[1..].iter().all(|x| *x < 32)
+}
+fn doms_serde() -> Vec<Vec<u64>> {
+    vec![range(20), range(4), range(4), range(4), range(4), range(4), range(6)]
+}
+pub fn harnesses_serde() -> Vec<H> {
+    if cfg!(all(feature = "serde-harness", not(kani))) {
+        vec![H { name: "serde_roundtrip", props: &["C16", "C11"], nargs: 7, pre: pre_serde, doms: doms_serde, run: run_serde, panic_ok: false,
+            bound: "17 compositions + 3 FlatStacks (consecutive pairs over IndexOptimized; MirrorRegion<usize> over IndexOptimized and over IndexList with values up to 2^33): history of 0..3 pushes from a pool of 4-6 values, serde_json round trip, then 4 further pushes on the original and on the restored copy: same indices, same reads at every issued index, same used bytes; the restored copy cleared and refilled like a default region", kani: false }]
+    } else {
+        vec![]
+    }
 }
